@@ -45,6 +45,81 @@ def node_calls(n: Node) -> T.List[ast.Call]:
     return out
 
 
+def _pattern_test(subj: ast.expr, p: ast.AST) -> T.Optional[ast.expr]:
+    """The branch predicate of a `case` pattern that binds no name: `A()` -> isinstance(s, A); `A() | B()` -> isinstance(s, (A, B)); a value / singleton
+    pattern -> `s == v` / `s is v`.  None: a pattern the normal form does not cover (captures, sequences, mappings, positional sub-patterns)."""
+    import copy
+    if isinstance(p, ast.MatchClass) and not p.patterns and not p.kwd_patterns:
+        return ast.Call(func=ast.Name(id='isinstance', ctx=ast.Load()), args=[copy.deepcopy(subj), p.cls], keywords=[])
+    if isinstance(p, ast.MatchOr) and all(isinstance(x, ast.MatchClass) and not x.patterns and not x.kwd_patterns for x in p.patterns):
+        return ast.Call(func=ast.Name(id='isinstance', ctx=ast.Load()), args=[copy.deepcopy(subj), ast.Tuple(elts=[x.cls for x in p.patterns], ctx=ast.Load())], keywords=[])  # type: ignore[attr-defined]
+    if isinstance(p, ast.MatchValue):
+        return ast.Compare(left=copy.deepcopy(subj), ops=[ast.Eq()], comparators=[p.value])
+    if isinstance(p, ast.MatchSingleton):
+        return ast.Compare(left=copy.deepcopy(subj), ops=[ast.Is()], comparators=[ast.Constant(value=p.value)])
+    return None
+
+
+def match_as_if_chain(fn: T.Any) -> T.Any:
+    """Normal form for the CFG: a `match` over a plain name whose cases bind nothing (class patterns without sub-patterns, alternatives of them, values,
+    a final wildcard; no guards) is the if/elif/else chain of the same tests.  The statements of the case bodies are the *same* objects, so lookups by
+    identity keep working; only the statement list that holds the match is rebuilt (shallow copies of the enclosing statements).  Any other match is left alone."""
+    import copy
+    if not any(isinstance(x, ast.Match) for x in ast.walk(fn)):
+        return fn
+
+    def chain(m: ast.Match) -> T.Optional[ast.stmt]:
+        if not isinstance(m.subject, ast.Name):
+            return None
+        arms: T.List[T.Tuple[T.Optional[ast.expr], T.List[ast.stmt]]] = []
+        for i, cs in enumerate(m.cases):
+            if cs.guard is not None:
+                return None
+            if isinstance(cs.pattern, ast.MatchAs) and cs.pattern.pattern is None and cs.pattern.name is None:
+                if i != len(m.cases) - 1:
+                    return None
+                arms.append((None, conv(cs.body)))
+                continue
+            t = _pattern_test(m.subject, cs.pattern)
+            if t is None:
+                return None
+            arms.append((ast.fix_missing_locations(ast.copy_location(t, cs.pattern)), conv(cs.body)))
+        tail: T.List[ast.stmt] = []
+        for t, body in reversed(arms):
+            if t is None:
+                tail = body
+            else:
+                tail = [ast.copy_location(ast.If(test=t, body=body, orelse=tail), t)]
+        return tail[0] if len(tail) == 1 and isinstance(tail[0], ast.If) else None
+
+    def conv(stmts: T.List[ast.stmt]) -> T.List[ast.stmt]:
+        out: T.List[ast.stmt] = []
+        for st in stmts:
+            if isinstance(st, (ast.FunctionDef, ast.AsyncFunctionDef, ast.ClassDef)) or not any(isinstance(x, ast.Match) for x in ast.walk(st)):
+                out.append(st)
+                continue
+            if isinstance(st, ast.Match):
+                c = chain(st)
+                out.append(c if c is not None else st)
+                continue
+            st2 = copy.copy(st)
+            for fld in ('body', 'orelse', 'finalbody'):
+                if isinstance(getattr(st2, fld, None), list) and getattr(st2, fld) and isinstance(getattr(st2, fld)[0], ast.stmt):
+                    setattr(st2, fld, conv(getattr(st2, fld)))
+            if isinstance(st2, ast.Try):
+                hs = []
+                for h in st2.handlers:
+                    h2 = copy.copy(h)
+                    h2.body = conv(h.body)
+                    hs.append(h2)
+                st2.handlers = hs
+            out.append(st2)
+        return out
+    fn2 = copy.copy(fn)
+    fn2.body = conv(fn.body)
+    return fn2
+
+
 class FnInfo:
     """One function: CFG built on first use, definitions per local name, cached reachability."""
 
@@ -68,7 +143,7 @@ class FnInfo:
     @property
     def cfg(self) -> CFG:
         if self._cfg is None:
-            self._cfg = CFG(self.fn)
+            self._cfg = CFG(match_as_if_chain(self.fn))
         return self._cfg
 
     # -- definitions ------------------------------------------------------
